@@ -99,6 +99,17 @@ class Setup:
         self.ff = graphs.real_filter2(self.f, self.vi, self.li)
         return True
 
+    def fresh_method_ff(self, accept_all=False):
+        """Like fresh_ff, but the callable is a bound method of a freshly configured object of ONE class."""
+        from eglib import classes as C
+
+        f, vi, li = self.f, self.vi, self.li
+        if f is None and not accept_all:
+            return None
+        if accept_all:
+            return C.MethodFilter(lambda e, v: True).accept
+        return C.MethodFilter(lambda e, v: f(li[id(e)], vi[id(v)])).accept
+
     def fresh_ff(self, accept_all=False):
         """A new short-lived ff_via callable at every call (same truth table unless accept_all)."""
         # both kinds of filter are closures made by ONE factory (same code object, different closed-over
